@@ -43,6 +43,7 @@ CLASH_KINDS = ["new_cells_clash", "new_space_clash", "model_new_space_clash", "m
                "rename_space_clash", "ref_clash_cells", "ref_clash_sub_member",
                "cells_clash_sub_member", "add_bases_kind_conflict", "add_bases_kind_conflict_in_sub",
                "new_space_kind_conflict", "new_space_refs_conflict", "new_cells_funcname_clash",
+               "new_cells_autoname_clash",
                "setattr_nonscalar_cells",
                "new_cells_badname", "rename_cells_badname", "rename_space_badname"]
 ABSENT = ["qq1", "nothing_here", "zz9", "Xx"]
@@ -57,7 +58,7 @@ def gen_cases(tier, seed):
         yield {"id": "d%d" % j, "directed": j}
 
 
-DIRECTED = ["A", "F", "T", "Z", "LL", "MM"]
+DIRECTED = ["A", "F", "T", "Z", "LL", "MM", "VV"]
 
 
 def expand(case):
